@@ -43,6 +43,20 @@ Definition is_retire_cmd (o : op) : bool :=
 Definition is_exit_cmd (o : op) : bool :=
   match o with OCmd CExit | OCmd CWebExit => true | _ => false end.
 
+(* the cluster provider publishes a topology: the node's service directory is replaced *)
+Definition is_topo (o : op) : bool :=
+  match o with OHide _ | OShow _ | OTopo _ => true | _ => false end.
+(* ... because cluster membership changed, the own member's service list being what it was *)
+Definition is_rebuild (o : op) : bool := match o with OTopo _ => true | _ => false end.
+
+(* a history with the membership changes taken out, and the matching projection of a trace *)
+Definition erase_topo (h : list op) : list op := filter (fun o => negb (is_rebuild o)) h.
+Fixpoint erase_obs (h : list op) (tr : list obs) : list obs :=
+  match h, tr with
+  | o :: h', b :: tr' => if is_rebuild o then erase_obs h' tr' else b :: erase_obs h' tr'
+  | _, _ => []
+  end.
+
 (* ---- trace functions ---- *)
 Definition reply_of (b : obs) : reply := match b with Ob r _ _ => r end.
 Definition evs_of (b : obs) : list aev := match b with Ob _ e _ => e end.
@@ -93,6 +107,15 @@ Definition told (cfg : config) (h : list op) (sends : list (Z * kcmd)) : bool :=
   forallb (fun n => hidden h n || existsb (fun x => Z.eqb (fst x) n && is_kretire (snd x)) sends)
           (names cfg).
 
+(* after a topology publication (history h' includes it) the directory lists exactly the hosted
+   services the topology does not leave out, each stamped with the node state last published *)
+Definition dir_lists (cfg : config) (h' : list op) (cur : nstate) (l : list (Z * nstate)) : bool :=
+  forallb (fun n => match aget n l with
+                    | Some st => negb (hidden h' n) && nstate_eqb st cur
+                    | None => hidden h' n
+                    end) (names cfg)
+  && forallb (fun kv => hosted cfg (fst kv)) l.
+
 (* a reply that names the node state names the state last published *)
 Definition names_state (cur : nstate) (r : reply) : bool :=
   match r with
@@ -126,7 +149,10 @@ Definition check_op (cfg : config) (h : list op) (cur : nstate) (o : op)
       && forallb (fun x => is_kquery (snd x) && hosted cfg (fst x) && asks o (fst x)
                            && negb (hidden h (fst x))) sends
   | OSvcCmd _ _ | ONotify _ | OStopDone _ => is_nil sends
-  | OHide _ | OShow _ => match r with RNone => true | _ => false end && is_nil evs && is_nil sends
+  | OHide _ | OShow _ | OTopo _ =>
+      (* a topology publication changes the directory and nothing else: nothing is published
+         by the node, nobody is sent anything *)
+      match r with RDir l => dir_lists cfg (h ++ [o]) cur l | _ => false end && is_nil evs && is_nil sends
   end.
 
 (* [check cfg h tr o b]: operation o, issued after history h whose trace was tr, may show b *)
